@@ -73,7 +73,11 @@ enum Broken {
 struct Op {
     uri: usize,
     kind: Kind,
+    /// text id = 1-based position in the history: unique, names the text (`V<id>`, `undefined_<id>a`)
     version: i32,
+    /// the version number sent to the server: increasing inside an open session, but a reopen after a close may
+    /// reuse the last number, restart at 1, go lower or higher (clients restart numbering when a file is reopened)
+    lsp_version: i32,
     markers: u8,
     broken: Broken,
     /// number of dependency files the text imports (1 or 2): one publish, i.e. one possible yield, per dependency
@@ -222,6 +226,7 @@ fn case_to_json(c: &Case) -> Value {
             "uri": o.uri,
             "op": match o.kind { Kind::Open => "open", Kind::Change => "change", Kind::Close => "close" },
             "version": o.version,
+            "lsp_version": o.lsp_version,
             "markers": o.markers,
             "broken": match o.broken { Broken::No => "no", Broken::Syntax => "syntax", Broken::Lex => "lex" },
             "deps": o.deps,
@@ -249,6 +254,7 @@ fn case_from_json(v: &Value) -> Option<Case> {
                 _ => return None,
             },
             version: o["version"].as_i64()? as i32,
+            lsp_version: o["lsp_version"].as_i64().or(o["version"].as_i64())? as i32,
             markers: o["markers"].as_u64().unwrap_or(0) as u8,
             broken: match o["broken"].as_str().unwrap_or("no") {
                 "syntax" => Broken::Syntax,
@@ -308,6 +314,7 @@ fn build_case(n_uris: usize, topo: u8, free: bool, raw_ops: Vec<(u8, u8, u8)>, r
     let imports = topology(topo, n_uris);
     let is_dep: Vec<bool> = (0..n_uris).map(|u| imports.iter().any(|l| l.contains(&u))).collect();
     let mut open = vec![false; n_uris];
+    let mut last_lsp: Vec<Option<i32>> = vec![None; n_uris];
     let mut ops: Vec<Op> = Vec::new();
     for (i, (u, k, t)) in raw_ops.iter().enumerate() {
         let uri = (*u as usize) % n_uris;
@@ -338,7 +345,32 @@ fn build_case(n_uris: usize, topo: u8, free: bool, raw_ops: Vec<(u8, u8, u8)>, r
             (if broken == Broken::No { markers } else { 0 }, broken)
         };
         let deps = if kind != Kind::Close && *k % 4 == 3 { 2 } else { 1 };
-        ops.push(Op { uri, kind, version: i as i32 + 1, markers, broken, deps, imports: imports[uri].clone() });
+        // version numbers on the wire: a change increments; an open draws from {text id (fresh, higher than anything
+        // before), same as the last number used for this URI, 1, lower}. The invariant lsp_version <= text id keeps
+        // "text id" strictly higher than every number used before.
+        let tid = i as i32 + 1;
+        let lsp_version = match (kind, last_lsp[uri]) {
+            (Kind::Close, l) => l.unwrap_or(tid),
+            (Kind::Change, Some(l)) => l + 1,
+            (Kind::Change, None) => tid,
+            (Kind::Open, None) => {
+                if (*k / 4) % 4 == 2 {
+                    1
+                } else {
+                    tid
+                }
+            }
+            (Kind::Open, Some(l)) => match (*k / 4) % 4 {
+                0 => tid,
+                1 => l,
+                2 => 1,
+                _ => (l - 1).max(1),
+            },
+        };
+        if kind != Kind::Close {
+            last_lsp[uri] = Some(lsp_version);
+        }
+        ops.push(Op { uri, kind, version: tid, lsp_version, markers, broken, deps, imports: imports[uri].clone() });
     }
     // known finding `stale-kept:syntax-error` switches the construct off: the latest text of an open document is
     // never broken
@@ -474,10 +506,10 @@ impl Harness {
         let uri = uri_of(&self.dir, op.uri);
         match op.kind {
             Kind::Open => Request::build("textDocument/didOpen")
-                .params(json!({"textDocument": {"uri": uri, "languageId": "incan", "version": op.version, "text": text_of(op)}}))
+                .params(json!({"textDocument": {"uri": uri, "languageId": "incan", "version": op.lsp_version, "text": text_of(op)}}))
                 .finish(),
             Kind::Change => Request::build("textDocument/didChange")
-                .params(json!({"textDocument": {"uri": uri, "version": op.version}, "contentChanges": [{"text": text_of(op)}]}))
+                .params(json!({"textDocument": {"uri": uri, "version": op.lsp_version}, "contentChanges": [{"text": text_of(op)}]}))
                 .finish(),
             Kind::Close => Request::build("textDocument/didClose").params(json!({"textDocument": {"uri": uri}})).finish(),
         }
@@ -659,10 +691,11 @@ fn execute_inner(case: &Case, dir: &Path, want_trace: bool, run: &mut Run) {
             run.max_in_flight = run.max_in_flight.max(in_flight.len());
             if h.want_trace {
                 run.trace.push(format!(
-                    "start #{id} {:?} uri={} v{}{}",
+                    "start #{id} {:?} uri={} text {} sent as version {}{}",
                     case.ops[id].kind,
                     case.ops[id].uri,
                     case.ops[id].version,
+                    case.ops[id].lsp_version,
                     if case.ops[id].deps > 1 { " (2 deps)" } else { "" }
                 ));
             }
@@ -927,6 +960,48 @@ struct Fail {
     what: String,
 }
 
+/// Is `m` a report that can be computed from the text of `op` (a text of document u)? Admissible reports:
+/// * the text does not lex/parse: a non-empty list without any marker (the document's own analysis and an
+///   importer's analysis both report the lex/parse errors);
+/// * the text parses: the full report (exactly its markers; diagnostics without a marker only if a document
+///   reachable through its imports has a text that does not parse — "Failed to parse dependency ..", unresolved
+///   imported names), or the EMPTY list when the document is imported by another one (an importer's analysis reports
+///   the parse status of its open dependencies: "parsed, nothing to report").
+/// Anything else — markers of another text, lex/parse errors for a text that parses, an empty list for a text that
+/// does not parse — was not computed from this text.
+fn admissible(case: &Case, u: usize, op: &Op, m: &Msg) -> Result<(), String> {
+    let want: BTreeSet<String> = marker_names(op).into_iter().collect();
+    let t = op.version;
+    if m.markers.difference(&want).next().is_some() {
+        return Err(format!("mentions {:?}, text {t} has {:?}", m.markers, want));
+    }
+    if op.broken != Broken::No {
+        if m.n_diags == 0 {
+            return Err(format!("is empty, text {t} has a {:?} error", op.broken));
+        }
+        return Ok(());
+    }
+    if m.n_diags == 0 {
+        if !want.is_empty() && !case.imported(u) {
+            return Err(format!("is empty, text {t} has {:?} (and no other document imports this one)", want));
+        }
+        return Ok(());
+    }
+    if m.markers != want {
+        return Err(format!("mentions {:?}, text {t} has {:?}", m.markers, want));
+    }
+    let dep_may_break = case.reach(u).iter().any(|w| case.ops.iter().any(|o| o.uri == *w && o.broken != Broken::No));
+    if m.n_unmarked > 0 && !dep_may_break {
+        return Err(format!(
+            "carries {} diagnostic(s) that mention no marker, but text {t} lexes and parses and nothing it imports is ever broken",
+            m.n_unmarked
+        ));
+    }
+    Ok(())
+}
+
+/// "Latest text" of a document = the text of its last notification in history order (version numbers on the wire
+/// may repeat or go down across close/reopen, so they do not order texts).
 fn judge(case: &Case, run: &Run) -> Vec<Fail> {
     let mut fails = Vec::new();
     if let Some(p) = &run.panic {
@@ -939,157 +1014,125 @@ fn judge(case: &Case, run: &Run) -> Vec<Fail> {
         for e in &probe.errors {
             fails.push(Fail { key: "probe:error-response".into(), what: format!("uri {u}: {e}") });
         }
-        let versions: BTreeMap<i32, &Op> = ops_u.iter().filter(|o| o.kind != Kind::Close).map(|o| (o.version, *o)).collect();
+        // texts of this document by text id
+        let texts: BTreeMap<i32, &Op> = ops_u.iter().filter(|o| o.kind != Kind::Close).map(|o| (o.version, *o)).collect();
         let closed = ops_u.last().map(|o| o.kind == Kind::Close).unwrap_or(true);
-        let pubs: Vec<(usize, &Msg)> = run
-            .msgs
-            .iter()
-            .enumerate()
-            .filter(|(_, m)| m.method == "textDocument/publishDiagnostics" && m.uri == Some(u))
-            .collect();
-        let last_pub_of = |v: i32| pubs.iter().rev().find(|(_, m)| m.version == Some(v as i64)).map(|(i, _)| *i);
-        let def_version = |d: (u32, u32, u32, u32)| versions.values().find(|o| d == (0, 0, 0, line0_len(o))).map(|o| o.version);
+        let pubs: Vec<&Msg> = run.msgs.iter().filter(|m| m.method == "textDocument/publishDiagnostics" && m.uri == Some(u)).collect();
+        let def_text = |d: (u32, u32, u32, u32)| texts.values().find(|o| d == (0, 0, 0, line0_len(o))).map(|o| o.version);
+        let served: Option<i32> = probe.hover_v.or(probe.def.and_then(def_text)).or(probe.completion_v.first().copied());
 
         // ---- which text does the server answer from?
         if closed {
-            let mut served: Option<i32> = probe.hover_v;
-            if served.is_none() {
-                served = probe.def.and_then(def_version).or(probe.completion_v.first().copied());
-            }
             if probe.hover.is_some() || probe.def.is_some() || !probe.completion_v.is_empty() {
-                // root-cause shape: a versioned publish of the served version after the close's own publish means
-                // an analysis that was in flight stored its result after the close
-                let last_close_pub = pubs.iter().rev().find(|(_, m)| m.version.is_none()).map(|(i, _)| *i);
-                let stale = match (served.and_then(last_pub_of), last_close_pub) {
-                    (Some(pv), Some(pc)) => pv > pc,
-                    _ => false,
-                };
-                let key = if stale { "stale-overwrite:after-close" } else { "after-close:document-still-served" };
+                let key = if served.map(|w| texts.contains_key(&w)).unwrap_or(false) { "stale-overwrite:after-close" } else { "after-close:document-still-served" };
                 fails.push(Fail {
                     key: key.into(),
                     what: format!(
-                        "uri {u} was closed last, yet hover={:?} definition={:?} completion V={:?} (served version {:?})",
+                        "uri {u} was closed last, yet hover={:?} definition={:?} completion V={:?} (served text {:?})",
                         probe.hover, probe.def, probe.completion_v, served
                     ),
                 });
             }
         } else {
-            let max_op = *ops_u.last().unwrap();
-            let max = max_op.version;
-            if max_op.broken != Broken::No {
-                // the latest text does not parse: nothing can be answered from it; answering from an older text
-                // is answering from a text that is not the latest one
-                let served = probe.hover_v.or(probe.def.and_then(def_version)).or(probe.completion_v.first().copied());
-                let bad = probe.hover_v.map(|v| v != max).unwrap_or(false)
-                    || probe.def.map(|d| def_version(d) != Some(max)).unwrap_or(false)
-                    || probe.completion_v.iter().any(|v| *v != max);
+            let latest = *ops_u.last().unwrap();
+            let lt = latest.version;
+            let older = |w: i32| w != lt && texts.contains_key(&w);
+            if latest.broken != Broken::No {
+                // the latest text does not parse: nothing can be answered from it; answering from an older text is
+                // answering from a text that is not the latest one
+                let bad = probe.hover_v.map(|v| v != lt).unwrap_or(false)
+                    || probe.def.map(|d| def_text(d) != Some(lt)).unwrap_or(false)
+                    || probe.completion_v.iter().any(|v| *v != lt);
                 if bad {
-                    let older_ok = served.map(|w| w < max && versions.contains_key(&w)).unwrap_or(false);
-                    // explained by "stored only after a successful parse" iff the served version is the one the
-                    // document map would hold had the broken versions never been sent
-                    let key = if older_ok { "stale-kept:syntax-error" } else { "wrong-version:broken-latest" };
+                    let key = if served.map(older).unwrap_or(false) { "stale-kept:syntax-error" } else { "wrong-version:broken-latest" };
                     fails.push(Fail {
                         key: key.into(),
                         what: format!(
-                            "uri {u}: latest version {max} has a {:?} error, yet hover={:?} definition={:?} completion V={:?}",
-                            max_op.broken, probe.hover_v, probe.def, probe.completion_v
+                            "uri {u}: latest text {lt} (sent as version {}) has a {:?} error, yet hover={:?} definition={:?} completion V={:?}",
+                            latest.lsp_version, latest.broken, probe.hover_v, probe.def, probe.completion_v
                         ),
                     });
                 }
             } else {
                 match probe.hover_v {
-                    Some(v) if v == max => {}
+                    Some(v) if v == lt => {}
                     Some(w) => {
-                        // stale overwrite: the analysis of w published (= stored, same poll) after the one of max
-                        let stale = w < max
-                            && versions.contains_key(&w)
-                            && match (last_pub_of(w), last_pub_of(max)) {
-                                (Some(pw), Some(pm)) => pw > pm,
-                                _ => false,
-                            };
-                        let key = if stale { "stale-overwrite:newer-change" } else { "wrong-version:hover" };
+                        let key = if older(w) { "stale-overwrite:newer-change" } else { "wrong-version:hover" };
                         fails.push(Fail {
                             key: key.into(),
-                            what: format!("uri {u}: highest version sent is {max}, hover answers from version {w} ({:?})", probe.hover),
+                            what: format!(
+                                "uri {u}: latest text is {lt} (sent as version {}), hover answers from text {w} ({:?})",
+                                latest.lsp_version, probe.hover
+                            ),
                         });
                     }
                     None => fails.push(Fail {
                         key: "missing:latest-not-served".into(),
-                        what: format!("uri {u}: highest version sent is {max} (open, parses), hover answers {:?}", probe.hover),
+                        what: format!("uri {u}: latest text is {lt} (open, parses), hover answers {:?}", probe.hover),
                     }),
                 }
                 // definition and completion must agree (only reported separately when hover is right)
-                if probe.hover_v == Some(max) {
-                    if probe.def != Some((0, 0, 0, line0_len(max_op))) || !probe.def_uri_ok {
+                if probe.hover_v == Some(lt) {
+                    if probe.def != Some((0, 0, 0, line0_len(latest))) || !probe.def_uri_ok {
                         fails.push(Fail {
                             key: "wrong-version:definition".into(),
                             what: format!(
-                                "uri {u}: definition range {:?} (uri ok: {}) is not the declaration of V{max} (0,0)-(0,{})",
+                                "uri {u}: definition range {:?} (uri ok: {}) is not the declaration of V{lt} (0,0)-(0,{})",
                                 probe.def,
                                 probe.def_uri_ok,
-                                line0_len(max_op)
+                                line0_len(latest)
                             ),
                         });
                     }
-                    if probe.completion_v != vec![max] {
+                    if probe.completion_v != vec![lt] {
                         fails.push(Fail {
                             key: "wrong-version:completion".into(),
-                            what: format!("uri {u}: completion offers V{:?}, expected exactly V{max}", probe.completion_v),
+                            what: format!("uri {u}: completion offers V{:?}, expected exactly V{lt}", probe.completion_v),
                         });
                     }
                 }
-                if last_pub_of(max).is_none() {
-                    fails.push(Fail {
-                        key: "diagnostics:none-for-latest".into(),
-                        what: format!("uri {u}: no publishDiagnostics carrying the latest version {max} was ever sent"),
-                    });
+            }
+            // ---- the last versioned publish for an open document is a report about its latest text
+            match pubs.iter().rev().find(|m| m.version.is_some()) {
+                None => fails.push(Fail {
+                    key: "diagnostics:none-for-latest".into(),
+                    what: format!("uri {u}: open at the end, but no versioned publishDiagnostics was ever sent for it"),
+                }),
+                Some(m) => {
+                    let v = m.version.unwrap_or(-1);
+                    if v != latest.lsp_version as i64 {
+                        fails.push(Fail {
+                            key: "diagnostics:last-not-latest".into(),
+                            what: format!(
+                                "uri {u}: the last versioned publishDiagnostics carries version {v}, the latest text {lt} was sent as version {}",
+                                latest.lsp_version
+                            ),
+                        });
+                    } else if let Err(why) = admissible(case, u, latest, m) {
+                        fails.push(Fail {
+                            key: "diagnostics:last-not-latest".into(),
+                            what: format!("uri {u}: the last publishDiagnostics (version {v}) {why} — it was not computed from the latest text"),
+                        });
+                    }
                 }
             }
         }
 
-        // ---- diagnostics carrying a version were computed from that version's text — whoever published them (the
-        //      document's own analysis, or the analysis of a document that imports it). Admissible reports for text v:
-        //      * v does not lex/parse: a non-empty list without any marker (both publishers report the lex/parse errors);
-        //      * v parses: the full report (exactly the markers of v; diagnostics without a marker only if a document
-        //        reachable through v's imports has a version that does not parse — "Failed to parse dependency ..",
-        //        unresolved imported names), or the EMPTY list when the document is imported by another one (an
-        //        importer's analysis reports the parse status of its open dependencies: "parsed, nothing to report").
-        //      Anything else — markers of another version, lex/parse errors under a version that parses, an empty
-        //      list under a version that does not parse — was not computed from that version's text.
-        let imported = case.imported(u);
-        let dep_may_break = case.reach(u).iter().any(|w| case.ops.iter().any(|o| o.uri == *w && o.broken != Broken::No));
-        for (_, m) in &pubs {
+        // ---- every publish carrying version v was computed from one of the texts sent under version v, whoever
+        //      published it (the document's own analysis, or the analysis of a document that imports it)
+        for m in &pubs {
             let Some(v) = m.version else { continue };
-            let Some(op) = versions.get(&(v as i32)) else {
+            let candidates: Vec<&&Op> = texts.values().filter(|o| o.lsp_version as i64 == v).collect();
+            if candidates.is_empty() {
                 fails.push(Fail {
                     key: "diagnostics:unknown-version".into(),
                     what: format!("uri {u}: publishDiagnostics for version {v} which was never sent for this uri"),
                 });
                 continue;
-            };
-            let want: BTreeSet<String> = marker_names(op).into_iter().collect();
-            let foreign: Vec<&String> = m.markers.difference(&want).collect();
-            let mut bad: Option<String> = None;
-            if !foreign.is_empty() {
-                bad = Some(format!("mentions {:?}, text of version {v} has {:?}", m.markers, want));
-            } else if op.broken != Broken::No {
-                if m.n_diags == 0 {
-                    bad = Some(format!("is empty, text of version {v} has a {:?} error", op.broken));
-                }
-            } else if m.n_diags == 0 {
-                if !want.is_empty() && !imported {
-                    bad = Some(format!("is empty, text of version {v} has {:?} (and no other document imports this one)", want));
-                }
-            } else if m.markers != want {
-                bad = Some(format!("mentions {:?}, text of version {v} has {:?}", m.markers, want));
-            } else if m.n_unmarked > 0 && !dep_may_break {
-                bad = Some(format!(
-                    "carries {} diagnostic(s) that mention no marker, but text of version {v} lexes and parses and nothing it imports is ever broken",
-                    m.n_unmarked
-                ));
             }
-            if let Some(b) = bad {
-                fails.push(Fail { key: "diagnostics:wrong-text".into(), what: format!("uri {u}: publishDiagnostics version {v} {b}") });
+            let errs: Vec<String> = candidates.iter().filter_map(|o| admissible(case, u, o, m).err()).collect();
+            if errs.len() == candidates.len() {
+                fails.push(Fail { key: "diagnostics:wrong-text".into(), what: format!("uri {u}: publishDiagnostics version {v} {}", errs.join(" / ")) });
             }
         }
     }
@@ -1126,7 +1169,14 @@ fn publish_inversions(case: &Case, run: &Run) -> u32 {
         let imported = case.imported(u);
         for m in run.msgs.iter().filter(|m| m.method == "textDocument/publishDiagnostics" && m.uri == Some(u)) {
             let pos = match m.version {
-                Some(v) => v,
+                // wire versions may repeat: take the earliest text sent under v that keeps the sequence in order, if any
+                Some(v) => {
+                    let cands: Vec<i64> = case.ops.iter().filter(|o| o.uri == u && o.kind != Kind::Close && o.lsp_version as i64 == v).map(|o| o.version as i64).collect();
+                    match cands.iter().copied().filter(|t| *t >= high).min() {
+                        Some(t) => t,
+                        None => cands.iter().copied().max().unwrap_or(high),
+                    }
+                }
                 // importers publish unversioned reports for a dependency that is not open: not a close
                 None if imported => continue,
                 None => {
@@ -1160,7 +1210,7 @@ fn replay_body(case: &Case, key: &str, what: &str, dir: &Path) -> String {
     let mut v = case_to_json(&eff);
     v["signature"] = json!(key);
     v["what"] = json!(what);
-    v["texts"] = json!(case.ops.iter().filter(|o| o.kind != Kind::Close).map(|o| json!({"version": o.version, "text": text_of(o)})).collect::<Vec<_>>());
+    v["texts"] = json!(case.ops.iter().filter(|o| o.kind != Kind::Close).map(|o| json!({"text_id": o.version, "sent_as_version": o.lsp_version, "text": text_of(o)})).collect::<Vec<_>>());
     v["dependency"] = json!({"dep.incn": DEP_SOURCE, "dep2.incn": DEP2_SOURCE});
     v["trace"] = json!(run.trace);
     serde_json::to_string_pretty(&v).unwrap()
@@ -1206,6 +1256,32 @@ fn classes_of(case: &Case) -> Vec<&'static str> {
     if reopen {
         c.push("has_reopen");
     }
+    // version number chosen by a reopen, relative to the last number used for that document
+    let mut last_lsp: Vec<Option<i32>> = vec![None; case.n_uris];
+    let (mut same, mut lower, mut higher) = (false, false, false);
+    for o in &case.ops {
+        if o.kind == Kind::Open {
+            if let Some(l) = last_lsp[o.uri] {
+                match o.lsp_version.cmp(&l) {
+                    std::cmp::Ordering::Equal => same = true,
+                    std::cmp::Ordering::Less => lower = true,
+                    std::cmp::Ordering::Greater => higher = true,
+                }
+            }
+        }
+        if o.kind != Kind::Close {
+            last_lsp[o.uri] = Some(o.lsp_version);
+        }
+    }
+    if same {
+        c.push("reopen_same_version_number");
+    }
+    if lower {
+        c.push("reopen_lower_version_number");
+    }
+    if higher {
+        c.push("reopen_higher_version_number");
+    }
     if case.ops.iter().any(|o| o.markers > 0) {
         c.push("has_semantic_error_marker");
     }
@@ -1239,7 +1315,7 @@ fn main() {
     );
     ev.assume("handlers are first polled in arrival order (futures::stream::buffer_unordered pushes into a FIFO ready queue); the `free` executor explores every later poll order, the `serve loop` executor only wake order (FIFO) with arbitrary drain/arrival timing");
     ev.assume("at most 4 handlers in flight (tower-lsp Server default max_concurrency)");
-    ev.assume("versions increase strictly along the history (also across close/reopen)");
+    ev.assume("version numbers on the wire increase inside an open session; a didOpen after a didClose may reuse the last number, restart at 1, go lower or higher. The latest text of a document is the text of its last notification in history order");
     ev.assume("documents may import each other (acyclic, up to 3 documents); a report about version v of a document is judged whoever sent it: it must be a report computable from text v — the full report (exactly v's markers), or, for a document that another one imports, the parse-level report an importer's analysis sends (empty list if v parses, lex/parse errors if not). That an importer's empty report hides the dependency's own type errors is incompleteness, not staleness, and is not judged");
     ev.assume("a text with a syntax/lexical error has no answerable declarations: for such a latest version hover/definition may answer nothing, but not from an older text");
 
@@ -1266,9 +1342,9 @@ fn run_main(args: &Args, out: &mut Outcome, ev: &mut Evidence, dir: &Path) -> i3
             exec,
             imports: vec![vec![1], vec![]],
             ops: vec![
-                Op { uri: 0, kind: Kind::Open, version: 1, markers: 2, broken: Broken::No, deps: 2, imports: vec![1] },
-                Op { uri: 1, kind: Kind::Open, version: 2, markers: 0, broken: Broken::No, deps: 1, imports: vec![] },
-                Op { uri: 1, kind: Kind::Close, version: 3, markers: 0, broken: Broken::No, deps: 1, imports: vec![] },
+                Op { uri: 0, kind: Kind::Open, version: 1, lsp_version: 1, markers: 2, broken: Broken::No, deps: 2, imports: vec![1] },
+                Op { uri: 1, kind: Kind::Open, version: 2, lsp_version: 2, markers: 0, broken: Broken::No, deps: 1, imports: vec![] },
+                Op { uri: 1, kind: Kind::Close, version: 3, lsp_version: 2, markers: 0, broken: Broken::No, deps: 1, imports: vec![] },
             ],
             // strictly sequential: every handler runs to completion (with the socket drained) before the next starts
             sched: (0..3usize)
@@ -1500,7 +1576,7 @@ fn run_main(args: &Args, out: &mut Outcome, ev: &mut Evidence, dir: &Path) -> i3
                     .collect();
                 let last_sent = case.ops.iter().rev().find(|o| o.uri == u);
                 if let (Some(o), Some(lastv)) = (last_sent, vs.last()) {
-                    if o.kind != Kind::Close && *lastv != o.version as i64 {
+                    if o.kind != Kind::Close && *lastv != o.lsp_version as i64 {
                         stale_final_publish += 1;
                     }
                 }
@@ -1559,7 +1635,7 @@ fn run_main(args: &Args, out: &mut Outcome, ev: &mut Evidence, dir: &Path) -> i3
                     .collect::<Vec<_>>()
                     .join("\n");
                 let body = replay_body(&eff, &key, &what, dir);
-                let hist: Vec<String> = eff.ops.iter().map(|o| format!("{:?}(uri{},v{})", o.kind, o.uri, o.version)).collect();
+                let hist: Vec<String> = eff.ops.iter().map(|o| format!("{:?}(uri{},text{},version{})", o.kind, o.uri, o.version, o.lsp_version)).collect();
                 out.violation(ev, &key, "json", &body, &format!("history: {}\nschedule: {:?}\n{}", hist.join(" "), eff.sched, what));
             }
         }
@@ -1589,6 +1665,7 @@ fn run_main(args: &Args, out: &mut Outcome, ev: &mut Evidence, dir: &Path) -> i3
 /// Protocol-valid per URI (open first, change/close only while open, open only while closed), versions increasing.
 fn valid_history(ops: &[Op], n_uris: usize) -> bool {
     let mut open = vec![false; n_uris];
+    let mut cur = vec![0i32; n_uris];
     let mut last = 0;
     for o in ops {
         if o.uri >= n_uris || o.version <= last {
@@ -1597,9 +1674,19 @@ fn valid_history(ops: &[Op], n_uris: usize) -> bool {
         last = o.version;
         match o.kind {
             Kind::Open if !open[o.uri] => open[o.uri] = true,
-            Kind::Change if open[o.uri] => {}
+            Kind::Change if open[o.uri] => {
+                if o.lsp_version <= cur[o.uri] {
+                    return false;
+                }
+            }
             Kind::Close if open[o.uri] => open[o.uri] = false,
             _ => return false,
+        }
+        if o.kind != Kind::Close {
+            if o.lsp_version < 1 {
+                return false;
+            }
+            cur[o.uri] = o.lsp_version;
         }
     }
     true
@@ -1744,6 +1831,17 @@ fn minimise_case(case: &Case, key: &str, dir: &Path) -> Case {
                     cur = t;
                     changed = true;
                 }
+            }
+        }
+        // wire version = text id everywhere (no reuse of version numbers)
+        if cur.ops.iter().any(|o| o.lsp_version != o.version) {
+            let mut t = cur.clone();
+            for o in t.ops.iter_mut() {
+                o.lsp_version = o.version;
+            }
+            if fails(&t) {
+                cur = t;
+                changed = true;
             }
         }
         // no imports between the documents
